@@ -213,6 +213,9 @@ func (b *bb) scenarioSimple2() {
 		if _, dup := seen.LoadOrStore(item, true); dup {
 			b.fail("C02 simple2: Handle invoked twice for item %d (%s)", item, c)
 		}
+		if p := uint(item / 100000); item < 0 || c.n[p] == 0 || item%100000 >= c.n[p] {
+			b.fail("C02 simple2: Handle was called with item %d, which was never written to any input (%s)", item, c)
+		}
 		time.Sleep(20 * time.Microsecond)
 		atomic.AddInt64(&handled, 1)
 		atomic.AddInt64(&inHandle, -1)
@@ -468,14 +471,37 @@ func (b *bb) scenarioSimple1() {
 	ctx, cancel := context.WithCancel(context.Background())
 	defer cancel()
 	var inHandle, handled int64
+	var leftMu sync.Mutex
+	left := 0
+	var seenMu sync.Mutex
+	seen := map[int]bool{}
 	handle := func(hctx context.Context, item int) {
 		v := atomic.AddInt64(&inHandle, 1)
 		defer atomic.AddInt64(&inHandle, -1)
 		if v > int64(c.H) {
 			b.fail("C01 simple1: %d concurrent Handle calls, HandlersQuantity %d (%s)", v, c.H, c)
 		}
+		// what Handle is called with is something that was written to an input, once
+		// (the producers write p*100000+i, i < n[p], to the input of priority p)
+		seenMu.Lock()
+		dup := seen[item]
+		seen[item] = true
+		seenMu.Unlock()
+		if p := uint(item / 100000); item < 0 || c.n[p] == 0 || item%100000 >= c.n[p] {
+			b.fail("C02 simple1: Handle was called with item %d, which was never written to any input (mode %s) (%s)", item, mode, c)
+			b.fail("C16 simple1: Handle was called with item %d, which was never written to any input: what is delivered is not a subsequence of what was written (mode %s) (%s)", item, mode, c)
+		} else if dup {
+			b.fail("C02 simple1: Handle was called twice with item %d (mode %s) (%s)", item, mode, c)
+			b.fail("C16 simple1: Handle was called twice with item %d (mode %s) (%s)", item, mode, c)
+		}
 		if mode == "stop-busy" || mode == "stop+stop" {
-			<-hctx.Done() // busy until cancelled: Handle honours its context
+			<-hctx.Done() // busy until cancelled: Handle honours its context ...
+			// ... and needs a moment to wind up; what it leaves behind belongs to the user, who
+			// reads it once the discipline has terminated
+			time.Sleep(3 * time.Millisecond)
+			leftMu.Lock()
+			left = item
+			leftMu.Unlock()
 			return
 		}
 		select {
@@ -507,6 +533,20 @@ func (b *bb) scenarioSimple1() {
 		b.fail("C16 v1 NewSimple failed: %v", err)
 		return
 	}
+	// a user that waits for the completion of the discipline the documented way: until Err() is
+	// closed.  From then on no Handle call is running (C07), the handler goroutines are gone (C19)
+	// and what Handle wrote can be read without further synchronisation (C20)
+	errClosed := make(chan struct{})
+	go func() {
+		defer close(errClosed)
+		for range dsc.Err() {
+		}
+		if v := atomic.LoadInt64(&inHandle); v != 0 {
+			b.fail("C07 simple1: Err() is closed (the discipline has terminated) but %d Handle call(s) are still running (mode %s) (%s)", v, mode, c)
+			b.fail("C19 simple1: Err() is closed but %d handler goroutine(s) are still alive inside Handle (mode %s) (%s)", v, mode, c)
+		}
+		_ = left
+	}()
 	stopProd := make(chan struct{})
 	var produced sync.WaitGroup
 	for _, p := range c.prios {
@@ -607,6 +647,11 @@ func (b *bb) scenarioSimple1() {
 	}
 	close(stopProd)
 	produced.Wait()
+	select {
+	case <-errClosed:
+	case <-time.After(5 * time.Second):
+		b.fail("C19 simple1: Err() was not closed within 5s after %s returned (%s)", mode, c)
+	}
 	b.leakProbe("termination of v1 simple (" + mode + ")")
 	b.note("simple1", mode+" "+c.String(), before)
 }
